@@ -5,6 +5,7 @@ import (
 	"go/constant"
 	"go/token"
 	"go/types"
+	"strings"
 
 	"golang.org/x/tools/go/ssa"
 )
@@ -21,6 +22,9 @@ type AV struct {
 	Sym  string
 	Neg  bool // for sym: arithmetic negation
 	Tup  []AV
+	Fn   *ssa.Function // Kind "func": a decided function value
+	// Kind "struct": field path (".f0", ".f1.f0") -> value
+	Fields map[string]AV
 }
 
 func avConst(c constant.Value) AV { return AV{Kind: "const", C: c} }
@@ -54,6 +58,84 @@ type decideRun struct {
 	// calls: invoked for call instructions executed on the path (for effect tracing)
 	onCall func(call ssa.CallInstruction)
 	trace  []ssa.Instruction
+	// mem: what the decided path has stored into local variables that live in memory (structs built
+	// field by field, result slots): address key -> value
+	mem map[string]AV
+}
+
+// addrKey names a location inside a local Alloc (the alloc itself or a field path in it).
+func (r *decideRun) addrKey(v ssa.Value) (string, bool) {
+	switch x := v.(type) {
+	case *ssa.Alloc:
+		return fmt.Sprintf("a%p", x), true
+	case *ssa.FieldAddr:
+		if k, ok := r.addrKey(x.X); ok {
+			return fmt.Sprintf("%s.f%d", k, x.Field), true
+		}
+	}
+	return "", false
+}
+
+func (r *decideRun) storeMem(key string, a AV) {
+	if r.mem == nil {
+		r.mem = map[string]AV{}
+	}
+	if a.Kind == "struct" {
+		for k := range r.mem {
+			if strings.HasPrefix(k, key+".f") {
+				delete(r.mem, k)
+			}
+		}
+		for suffix, fv := range a.Fields {
+			r.mem[key+suffix] = fv
+		}
+		r.mem[key] = AV{Kind: "struct"}
+		return
+	}
+	r.mem[key] = a
+}
+
+func (r *decideRun) loadMem(key string, t types.Type) (AV, bool) {
+	if st, isStruct := t.Underlying().(*types.Struct); isStruct {
+		out := AV{Kind: "struct", Fields: map[string]AV{}}
+		for k, v := range r.mem {
+			if strings.HasPrefix(k, key+".f") {
+				out.Fields[strings.TrimPrefix(k, key)] = v
+			}
+		}
+		// fields never written hold their zero value
+		for i := 0; i < st.NumFields(); i++ {
+			suffix := fmt.Sprintf(".f%d", i)
+			if _, has := out.Fields[suffix]; !has {
+				if z, ok := zeroAV(st.Field(i).Type()); ok {
+					out.Fields[suffix] = z
+				}
+			}
+		}
+		return out, true
+	}
+	if a, ok := r.mem[key]; ok {
+		return a, true
+	}
+	// an Alloc starts zeroed
+	return zeroAV(t)
+}
+
+func zeroAV(t types.Type) (AV, bool) {
+	switch u := t.Underlying().(type) {
+	case *types.Basic:
+		switch {
+		case u.Info()&types.IsBoolean != 0:
+			return avBool(false), true
+		case u.Info()&types.IsInteger != 0:
+			return avInt(0), true
+		case u.Info()&types.IsString != 0:
+			return avConst(constant.MakeString("")), true
+		}
+	case *types.Pointer, *types.Interface, *types.Slice, *types.Map, *types.Signature, *types.Chan:
+		return AV{Kind: "nil"}, true
+	}
+	return AV{}, false
 }
 
 func (r *decideRun) fail(format string, args ...any) AV {
@@ -133,6 +215,11 @@ func (r *decideRun) eval1(v ssa.Value) AV {
 		}
 		// nil comparisons
 		if x.Op == token.EQL || x.Op == token.NEQ {
+			if a.Kind == "sym" && b.Kind == "sym" && a.Sym != b.Sym && decideSymCompare != nil {
+				if res, ok := decideSymCompare(a, b, x.Op); ok {
+					return avBool(res)
+				}
+			}
 			eq, ok := avEqual(a, b)
 			if ok {
 				return avBool(eq == (x.Op == token.EQL))
@@ -147,6 +234,11 @@ func (r *decideRun) eval1(v ssa.Value) AV {
 				return avConst(constant.BinaryOp(a.C, x.Op, b.C))
 			case token.LAND, token.LOR, token.AND, token.OR:
 				return avConst(constant.BinaryOp(a.C, x.Op, b.C))
+			}
+		}
+		if a.Kind == "sym" && b.Kind == "sym" && decideSymCompare != nil {
+			if res, ok := decideSymCompare(a, b, x.Op); ok {
+				return avBool(res)
 			}
 		}
 		if x.Op == token.SUB && a.Kind == "const" && constant.Sign(a.C) == 0 && b.Kind == "sym" {
@@ -167,7 +259,36 @@ func (r *decideRun) eval1(v ssa.Value) AV {
 	case *ssa.Call:
 		// a small helper of the repository: decide it in place with the actual arguments
 		sc := x.Call.StaticCallee()
+		if sc == nil && !x.Call.IsInvoke() {
+			// a call through a decided function value (an entry of a dispatch table)
+			if fv := r.eval(x.Call.Value); fv.Kind == "func" && fv.Fn != nil {
+				sc = fv.Fn
+			} else {
+				r.err = ""
+			}
+		}
 		if sc == nil || sc.Blocks == nil || r.depth >= 3 {
+			// an external function applied to symbolic operands (strings.Contains(v0, v1) inside a table
+			// entry, or the function itself stored in the table): the rule may know the answer
+			if decideSymCall != nil && !x.Call.IsInvoke() {
+				var callee *types.Func
+				if sc != nil {
+					callee = methodOf(sc)
+				} else {
+					callee, _ = calleeOf(x.Common())
+				}
+				if callee != nil {
+					saved := r.err
+					args := make([]AV, len(x.Call.Args))
+					for i, a := range x.Call.Args {
+						args[i] = r.eval(a)
+					}
+					r.err = saved
+					if a, ok := decideSymCall(callee, args); ok {
+						return a
+					}
+				}
+			}
 			return r.fail("call %s not covered by the oracle", x.Name())
 		}
 		args := make(map[ssa.Value]AV, len(sc.Params))
@@ -182,8 +303,14 @@ func (r *decideRun) eval1(v ssa.Value) AV {
 			}
 		}
 		sub := &decideRun{fn: sc, depth: r.depth + 1, memo: map[ssa.Value]AV{}, oracle: func(v ssa.Value) (AV, bool) {
-			a, ok := args[v]
-			return a, ok
+			if a, ok := args[v]; ok {
+				return a, true
+			}
+			// what the caller's oracle knows about callees (error constructors, predicates) holds in helpers too
+			if _, isCall := v.(*ssa.Call); isCall && r.oracle != nil {
+				return r.oracle(v)
+			}
+			return AV{}, false
 		}}
 		res, err := sub.run()
 		if err != "" {
@@ -199,8 +326,124 @@ func (r *decideRun) eval1(v ssa.Value) AV {
 			return AV{Kind: "nonnil"} // typed nil in an interface is a non-nil interface
 		}
 		return a
+	case *ssa.Field:
+		a := r.eval(x.X)
+		if a.Kind == "struct" {
+			prefix := fmt.Sprintf(".f%d", x.Field)
+			if fv, ok := a.Fields[prefix]; ok {
+				return fv
+			}
+			sub := AV{Kind: "struct", Fields: map[string]AV{}}
+			for k, v := range a.Fields {
+				if strings.HasPrefix(k, prefix+".f") {
+					sub.Fields[strings.TrimPrefix(k, prefix)] = v
+				}
+			}
+			if len(sub.Fields) > 0 {
+				return sub
+			}
+		}
+		return r.fail("field %d of %s", x.Field, a)
+	case *ssa.Function:
+		return AV{Kind: "func", Fn: x}
+	case *ssa.MakeClosure:
+		if f, ok := x.Fn.(*ssa.Function); ok && len(x.Bindings) == 0 {
+			return AV{Kind: "func", Fn: f}
+		}
+	case *ssa.Lookup:
+		// a lookup with a decided key in a package-level table that is filled once, in init, with
+		// constant keys (dispatch tables)
+		if ld, ok := x.X.(*ssa.UnOp); ok && ld.Op == token.MUL {
+			if g, ok := ld.X.(*ssa.Global); ok {
+				key := r.eval(x.Index)
+				if key.Kind != "const" {
+					return r.fail("table lookup %s with an undecided key", x.Name())
+				}
+				entries, okT := constTable(g)
+				if !okT {
+					return r.fail("table %s is not a constant table", g.Name())
+				}
+				var hit ssa.Value
+				for _, e := range entries {
+					if constant.Compare(e.key, token.EQL, key.C) {
+						hit = e.val
+					}
+				}
+				var val AV
+				if hit != nil {
+					if sv, okS := structLiteralAV(r, hit); okS {
+						val = sv
+					} else {
+						val = r.eval(hit)
+					}
+				} else {
+					val = AV{Kind: "nil"}
+					if _, isFn := x.Type().Underlying().(*types.Signature); !isFn {
+						if tup, isTup := x.Type().(*types.Tuple); !isTup || !isNillable(tup.At(0).Type()) {
+							if !x.CommaOk && !isNillable(x.Type()) {
+								return r.fail("table lookup %s misses and the zero value is not modelled", x.Name())
+							}
+						}
+					}
+				}
+				if x.CommaOk {
+					return AV{Kind: "tuple", Tup: []AV{val, avBool(hit != nil)}}
+				}
+				return val
+			}
+		}
 	}
 	return r.fail("value %s (%T) not covered by the oracle", v.Name(), v)
+}
+
+// structLiteralAV: a table entry that is a struct literal built in init (alloc, one store per field, load):
+// the struct value with the fields that were given constants / function values.
+func structLiteralAV(r *decideRun, v ssa.Value) (AV, bool) {
+	ld, ok := v.(*ssa.UnOp)
+	if !ok || ld.Op != token.MUL {
+		return AV{}, false
+	}
+	al, ok := ld.X.(*ssa.Alloc)
+	if !ok {
+		return AV{}, false
+	}
+	st, ok := derefType(al.Type()).Underlying().(*types.Struct)
+	if !ok {
+		return AV{}, false
+	}
+	out := AV{Kind: "struct", Fields: map[string]AV{}}
+	for _, ref := range *al.Referrers() {
+		fa, isFa := ref.(*ssa.FieldAddr)
+		if !isFa {
+			continue
+		}
+		for _, fr := range *fa.Referrers() {
+			if s, isSt := fr.(*ssa.Store); isSt && s.Addr == ssa.Value(fa) {
+				saved := r.err
+				a := r.eval(s.Val)
+				r.err = saved
+				if a.Kind != "unknown" && a.Kind != "" {
+					out.Fields[fmt.Sprintf(".f%d", fa.Field)] = a
+				}
+			}
+		}
+	}
+	// fields never stored hold their zero value
+	for i := 0; i < st.NumFields(); i++ {
+		k := fmt.Sprintf(".f%d", i)
+		if _, have := out.Fields[k]; have {
+			continue
+		}
+		if b, isB := st.Field(i).Type().Underlying().(*types.Basic); isB {
+			switch {
+			case b.Info()&types.IsBoolean != 0:
+				out.Fields[k] = avBool(false)
+			case b.Info()&types.IsInteger != 0:
+				out.Fields[k] = avInt(0)
+			}
+		}
+	}
+	return out, true
 }
 
 func avEqual(a, b AV) (bool, bool) {
@@ -210,6 +453,9 @@ func avEqual(a, b AV) (bool, bool) {
 			return true, true
 		case "nonnil":
 			return false, true
+		case "func":
+			// a decided function value (closure, function reference) is never nil
+			return false, x.Fn != nil
 		}
 		return false, false
 	}
@@ -281,6 +527,28 @@ func (r *decideRun) run() ([]AV, string) {
 		for _, in := range r.cur.Instrs {
 			if phi, ok := in.(*ssa.Phi); ok {
 				r.eval(phi)
+			}
+		}
+		// memory of local variables, in execution order
+		for _, in := range r.cur.Instrs {
+			switch x := in.(type) {
+			case *ssa.Store:
+				if key, ok := r.addrKey(x.Addr); ok {
+					saved := r.err
+					a := r.eval(x.Val)
+					r.err = saved
+					r.storeMem(key, a)
+				}
+			case *ssa.UnOp:
+				if x.Op == token.MUL {
+					if key, ok := r.addrKey(x.X); ok {
+						if _, covered := r.oracle(x); !covered {
+							if a, okL := r.loadMem(key, x.Type()); okL && a.Kind != "unknown" {
+								r.memo[x] = a
+							}
+						}
+					}
+				}
 			}
 		}
 		r.trace = append(r.trace, r.cur.Instrs...)
@@ -360,3 +628,100 @@ func DecideCalls(fn *ssa.Function, oracle Oracle, want func(ssa.CallInstruction)
 	_, err := r.run()
 	return evs, err
 }
+
+type tableEntry struct {
+	key constant.Value
+	val ssa.Value
+}
+
+var constTableCache = map[*ssa.Global]*struct {
+	entries []tableEntry
+	ok      bool
+}{}
+
+// constTable: the entries of a package-level map that is built by one composite literal in init (all
+// keys constant) and never updated or re-assigned anywhere else in its package.
+func constTable(g *ssa.Global) ([]tableEntry, bool) {
+	if c := constTableCache[g]; c != nil {
+		return c.entries, c.ok
+	}
+	res := &struct {
+		entries []tableEntry
+		ok      bool
+	}{}
+	constTableCache[g] = res
+	initFn := g.Pkg.Func("init")
+	if initFn == nil {
+		return nil, false
+	}
+	var mapVal ssa.Value
+	nStores := 0
+	for _, m := range g.Pkg.Members {
+		fn, isFn := m.(*ssa.Function)
+		if !isFn {
+			continue
+		}
+		var all []*ssa.Function
+		var add func(f *ssa.Function)
+		add = func(f *ssa.Function) {
+			all = append(all, f)
+			for _, a := range f.AnonFuncs {
+				add(a)
+			}
+		}
+		add(fn)
+		for _, f := range all {
+			for _, b := range f.Blocks {
+				for _, in := range b.Instrs {
+					switch x := in.(type) {
+					case *ssa.Store:
+						if x.Addr == ssa.Value(g) {
+							nStores++
+							if f == initFn {
+								mapVal = x.Val
+							}
+						}
+					case *ssa.MapUpdate:
+						if ld, ok := x.Map.(*ssa.UnOp); ok && ld.X == ssa.Value(g) {
+							return nil, false // updated after construction
+						}
+					}
+				}
+			}
+		}
+	}
+	if mapVal == nil || nStores != 1 {
+		return nil, false
+	}
+	for _, b := range initFn.Blocks {
+		for _, in := range b.Instrs {
+			mu, ok := in.(*ssa.MapUpdate)
+			if !ok || mu.Map != mapVal {
+				continue
+			}
+			k, isK := mu.Key.(*ssa.Const)
+			if !isK || k.Value == nil {
+				return nil, false
+			}
+			res.entries = append(res.entries, tableEntry{k.Value, mu.Value})
+		}
+	}
+	res.ok = len(res.entries) > 0
+	return res.entries, res.ok
+}
+
+func isNillable(t types.Type) bool {
+	switch t.Underlying().(type) {
+	case *types.Pointer, *types.Interface, *types.Map, *types.Slice, *types.Signature, *types.Chan:
+		return true
+	}
+	return false
+}
+
+// decideSymCompare, when set by a rule for the duration of its Decide calls, orders two symbolic
+// operands (also inside helpers and dispatch-table entries decided in place).
+var decideSymCompare func(a, b AV, op token.Token) (bool, bool)
+
+// decideSymCall, when set by a rule, answers calls of external functions whose arguments are symbolic
+// operands (the same question the rule's oracle answers when the call is written in the function itself).
+var decideSymCall func(callee *types.Func, args []AV) (AV, bool)
